@@ -34,7 +34,7 @@ class Solver:
         self.conv.atoms = atoms
         self.se = None
 
-    def executor(self, inline=()):
+    def executor(self, inline=(), opaque=None):
         conv = Converter()
         eps = self.eps
 
@@ -48,8 +48,8 @@ class Solver:
         conv.conv = conv_with_eps
         conv.sym = sym_for
         se = SymExec(self.unit, conv, inline={self.cls + "::" + n for n in inline},
-                     cls_consts=self.consts)
-        se.vec_symbols = lambda name: sp.Matrix([S("%s_%d" % (name, i), real=True) for i in range(3)])
+                     cls_consts=self.consts, facts=[(sp.Gt(gamma, 1), True)],
+                     opaque={self.cls + "::" + k: v for k, v in (opaque or {}).items()})
         return se
 
     def func(self, name):
@@ -523,3 +523,307 @@ def check_wave_leaves(chk, solver, name, inline=(), has_dxdt=True, rules=None):
                             "undisturbed %s state is returned for x/t %s (expected beyond the wave front)"
                             % (side, bnds), function=fn["full"], construct="const region %s" % side)
     return n, kinds
+
+
+# ----------------------------------------------------------------------------------
+# rational-function identities with radicals / Max / opaque functions as atoms
+
+def atomise(exprs):
+    """Replace every radical, Max/Min and applied function by a dummy (same sub-expression,
+    after expansion of its argument, -> same dummy). Returns (new exprs, mapping)."""
+    table = {}
+
+    def key_of(x):
+        if x.is_Pow:
+            return ("pow", sp.expand(x.base), x.exp)
+        return (x.func, tuple(sp.expand(a) for a in x.args))
+
+    def is_atom(x):
+        if x.is_Pow and not x.exp.is_Integer:
+            return True
+        if isinstance(x, (sp.Max, sp.Min)):
+            return True
+        if isinstance(x, sp.Function) or (hasattr(x, "func") and isinstance(x.func, sp.core.function.UndefinedFunction)):
+            return True
+        return False
+
+    def rep(e):
+        if not hasattr(e, "args") or not e.args:
+            return e
+        if is_atom(e):
+            k = key_of(e)
+            if k not in table:
+                table[k] = sp.Dummy("A%d" % len(table), positive=bool(e.is_Pow))
+            return table[k]
+        return e.func(*[rep(a) for a in e.args])
+    return [rep(e) for e in exprs], table
+
+
+def _canon_sign(p):
+    """(sign, canonical polynomial) with the sign chosen from the first term in sort order."""
+    p = sp.expand(p)
+    if p == 0:
+        return 1, p
+    terms = p.as_ordered_terms()
+    c = terms[0].as_coeff_Mul()[0]
+    if c.is_negative:
+        return -1, -p
+    return 1, p
+
+
+class AtomSpace:
+    """Shared dummy table so that equal sub-expressions get the same atom across calls."""
+
+    def __init__(self):
+        self.table = {}
+        self.memo = {}
+        self.sub0 = {}
+        self.rootq = {}
+
+    def dummy(self, key, positive=False):
+        if key not in self.table:
+            self.table[key] = sp.Dummy("A%d" % len(self.table), positive=positive)
+        return self.table[key]
+
+    def note_roots(self, exprs):
+        changed = False
+        for e in exprs:
+            if not hasattr(e, "atoms"):
+                continue
+            for pw in e.atoms(sp.Pow):
+                b, x = pw.as_base_exp()
+                if b.is_Symbol and x.is_Rational and not x.is_Integer:
+                    q = int(x.q)
+                    old = self.rootq.get(b)
+                    if old is None or old % q != 0:
+                        self.rootq[b] = q if old is None else int(sp.ilcm(q, old))
+                        changed = True
+        if changed:
+            # symbols are rewritten as powers of their roots: earlier results are stale
+            self.memo.clear()
+            self.sub0 = {b: self.dummy(("root", b, q), positive=True) ** q for b, q in self.rootq.items()}
+
+    def split_content(self, p):
+        p = sp.expand(p)
+        f = sp.factor_terms(p)
+        mono, prim = sp.Integer(1), sp.Integer(1)
+        for a in sp.Mul.make_args(f):
+            if a.is_Add:
+                prim = prim * a
+            else:
+                mono = mono * a
+        sg, prim = _canon_sign(prim)
+        return sg * mono, prim
+
+    def rep(self, e):
+        if not getattr(e, "args", None):
+            return self.sub0.get(e, e)
+        r = self.memo.get(e)
+        if r is not None:
+            return r
+        args = [self.rep(a) for a in e.args]
+        if e.is_Pow:
+            b, x = args
+            if x.is_Integer and x < 0 and b.is_Add:
+                mono, prim = self.split_content(b)
+                if prim == 1:
+                    r = mono ** x
+                else:
+                    r = (mono ** x) * self.dummy(("inv", prim)) ** (-x)
+            elif x.is_Rational and not x.is_Integer:
+                bb = sp.expand(b)
+                if bb.is_Pow and bb.base.is_Dummy and bb.exp.is_Integer:
+                    r = bb.base ** (bb.exp * x) if (bb.exp * x).is_Integer else \
+                        self.dummy(("root", bb, x.q), positive=True) ** x.p
+                else:
+                    r = self.dummy(("root", bb, x.q), positive=True) ** x.p
+            elif not x.is_Integer:
+                r = self.dummy(("pow", sp.expand(b), x), positive=True)
+            else:
+                r = b ** x
+        elif isinstance(e, (sp.Max, sp.Min)) or isinstance(e.func, sp.core.function.UndefinedFunction):
+            r = self.dummy((e.func, tuple(sp.expand(a) for a in args)))
+        else:
+            r = e.func(*args)
+        self.memo[e] = r
+        return r
+
+
+_SPACE = AtomSpace()
+
+
+def atomise_deep(exprs, space=None):
+    """Bottom-up: radicals, Max/Min, applied functions AND reciprocals of non-trivial polynomials
+    become dummies (reciprocals keyed by their primitive part up to sign and monomial content,
+    symbols whose root occurs are written as powers of that root), so that the result is a Laurent
+    polynomial in the dummies. Equal sub-expressions get the same dummy."""
+    space = space or _SPACE
+    space.note_roots(exprs)
+    return [space.rep(e) if hasattr(e, "args") else e for e in exprs], space.table
+
+
+def rat_is_zero(e, limit=1200, complete=True):
+    """Zero test for expressions that are rational functions of radicals / Max / opaque atoms.
+    1. reciprocal-aware polynomial normal form (exact when both sides share their denominators);
+    2. common-denominator normal form (complete), only below a size limit."""
+    if e == 0:
+        return True, sp.Integer(0)
+    (e1,), tbl = atomise_deep([e])
+    x = sp.expand(e1)
+    if x == 0:
+        return True, sp.Integer(0)
+    # roots: A = b^(1/q)  =>  A^k = b^(k div q) * A^(k mod q)
+    roots = [(A, key[1], key[2]) for key, A in tbl.items() if key[0] == "root"]
+
+    def reduce_roots(x):
+        return x
+    if roots:
+        def reduce_roots(x):
+            reps = {}
+            for pw in x.atoms(sp.Pow) | {a for a in x.atoms(sp.Dummy)}:
+                b, k = (pw.as_base_exp() if pw.is_Pow else (pw, sp.Integer(1)))
+                for A, base, q in roots:
+                    if b == A and k.is_Integer and (k >= q or k < 0):
+                        if base.is_Symbol or k < 0:
+                            continue     # symbols are already written as powers of their root
+                        reps[pw] = base ** (int(k) // q) * A ** (int(k) % q)
+            return sp.expand(x.xreplace(reps)) if reps else x
+        for _ in range(3):
+            x2 = reduce_roots(x)
+            if x2 == x:
+                break
+            x = x2
+        if x == 0:
+            return True, sp.Integer(0)
+    if not complete:
+        return False, x
+    # clear reciprocal atoms one at a time (outermost first): x(A) with A = 1/B  ->  sum c_j B^(k-j)
+    y = x
+    for _round in range(40):
+        inv = [(A, key[1]) for key, A in tbl.items() if key[0] == "inv" and A in y.free_symbols]
+        if not inv:
+            break
+        outer = [(A, B) for A, B in inv if not any(A in B2.free_symbols for A2, B2 in inv if A2 != A)]
+        A, B = (outer or inv)[0]
+        P = sp.Poly(y, A)
+        k = P.degree()
+        y = sp.expand(sum(c * B ** (k - m[0]) for m, c in P.terms()))
+        if roots:
+            for _ in range(6):
+                y2 = reduce_roots(y)
+                if y2 == y:
+                    break
+                y = y2
+        if y == 0:
+            return True, sp.Integer(0)
+        if len(y.args) > 20000:
+            break
+    else:
+        y = x
+    if not complete:
+        return False, x
+    (e2,), _ = atomise([e])
+    if sp.count_ops(e2) > limit:
+        return False, x
+    num = sp.expand(sp.numer(sp.together(e2)))
+    if num == 0:
+        return True, sp.Integer(0)
+    return False, num
+
+
+VBASIS = ("uL", "uR", "normal", "vface", "uLface", "uRface", "pvac")
+
+
+def flat(v):
+    """Scalar or abstract vector -> list of scalars (coefficients over the vector basis)."""
+    from .symexec import AVec
+    if isinstance(v, AVec):
+        extra = sorted(set(v.c) - set(VBASIS))
+        return [v.c.get(b, sp.Integer(0)) for b in VBASIS] + [v.c[b] for b in extra]
+    return [v]
+
+
+FLUX_SIG = ["rhoL", "uL", "PL", "rhoR", "uR", "PR", OUT, OUT, OUT, "normal", "vface"]
+
+
+def flux_leaves(solver, name="solve_for_flux", inline=(), opaque=None, sig=None, extra_args=None):
+    fn = solver.func(name)
+    se = solver.executor(inline, opaque)
+    sig = sig or FLUX_SIG
+    if len(fn["params"]) != len(sig):
+        raise AnalysisBroken("%s: signature changed" % fn["full"])
+    args = {}
+    outs = []
+    for p, role in zip(fn["params"], sig):
+        if role is OUT:
+            outs.append(("l", p["id"]))
+        elif "CoordinateVector" in p["t"]:
+            args[p["n"]] = se.vec_symbols(role)
+        elif p["t"].replace("const ", "").strip() == "bool":
+            args[p["n"]] = sp.Symbol(role)   # boolean flag
+        else:
+            args[p["n"]] = sym_for(role)
+    leaves = se.run(fn, args=args)
+    res = []
+    for l in leaves:
+        if l.aborted:
+            continue
+        vals = [l.env.vals.get(k) for k in outs]
+        if any(v is None for v in vals):
+            raise AnalysisBroken("%s: a path leaves a flux unset (%s)" % (fn["full"], show_conds(l)[:200]))
+        if getattr(vals[1], "partial", None) is not None and vals[1].partial != {0, 1, 2}:
+            raise AnalysisBroken("%s: momentum flux only partly set (%s)" % (fn["full"], show_conds(l)[:200]))
+        res.append((l, {"m": vals[0], "p": vals[1], "E": vals[2]}))
+    return fn, res, se
+
+
+MIRROR_VM = None
+
+
+def mirror_vm():
+    """Basis map of the mirror operation: states swapped, normal reversed, face velocity kept."""
+    from .symexec import AVec
+    return {"uL": AVec.basis("uR"), "uR": AVec.basis("uL"), "uLface": AVec.basis("uRface"),
+            "uRface": AVec.basis("uLface"), "normal": -AVec.basis("normal")}
+
+
+def apply_vm(e, vm, scalar_map=None):
+    """Image of a scalar expression / abstract vector under a linear map of the vector basis
+    combined with a substitution of scalar symbols."""
+    from .symexec import AVec, remap_scalar
+    scalar_map = scalar_map or {}
+    if isinstance(e, AVec):
+        r = AVec()
+        for k, v in e.c.items():
+            r = r + (vm[k] if k in vm else AVec.basis(k)) * remap_scalar(v, vm).xreplace(scalar_map)
+        return r
+    if not hasattr(e, "xreplace"):
+        return e
+    return remap_scalar(e, vm).xreplace(scalar_map)
+
+
+def flux_mirror(e, scalar_map):
+    """Mirror image of a scalar expression or abstract vector."""
+    from .symexec import AVec, remap_scalar
+    vm = mirror_vm()
+    if isinstance(e, AVec):
+        r = AVec()
+        for k, v in e.c.items():
+            r = r + (vm[k] if k in vm else AVec.basis(k)) * remap_scalar(v, vm).xreplace(scalar_map)
+        return r
+    return remap_scalar(e, vm).xreplace(scalar_map)
+
+
+def flux_mirror_map(symbols):
+    m = {}
+    for s in symbols:
+        n = s.name
+        if n.startswith("<"):
+            continue    # dot symbols are remapped through the basis map
+        elif n in ("vL", "vR"):
+            # projected velocities passed as scalars: the normal is reversed
+            m[s] = -S(mirror_name(n), real=True)
+        else:
+            t = mirror_name(n)
+            m[s] = S(t, **{k: v for k, v in s.assumptions0.items() if k in ("positive", "real") and v})
+    return m
